@@ -152,7 +152,7 @@ Fixpoint json_fits (cs : list fclass) (name : str) (v : json) {struct v} : bool 
 Definition reduce_group_raw (g : list fclass) : option fclass :=
   match g with
   | [] => None
-  | first :: _ => Some (mk_fclass (c_qname first) (c_ns first) (existsb c_mixed g) (existsb c_nillable g)
+  | first :: _ => Some (mk_fclass (c_qname first) (group_ns g first) (existsb c_mixed g) (existsb c_nillable g)
                                   (reduce_attributes (map c_attrs g)))
   end.
 Definition reduce_classes_raw (cs : list fclass) : list fclass :=
@@ -200,13 +200,16 @@ Definition node_nil_present_ok (cs : list fclass) (parent_ns : option str) (n : 
   end.
 Definition doc_nil_present_ok (cs : list fclass) (t : tree) : bool := tree_all (node_nil_present_ok cs) (root_ns t) t.
 
-(* g_ns: the class namespace build_class computes for a node (None when the node and all its ancestors are
-   unqualified, "" for an unqualified node below a qualified one) is the namespace of the merged class, which
-   reduce_classes copies from group[0] *)
+(* g_ns: the namespace of the merged class is the class namespace build_class computes for the node (None when
+   the node and all its ancestors are unqualified, "" for an unqualified node below a qualified one), or the
+   merged class is explicitly unqualified ("") where the node would inherit no namespace (None): equally
+   unqualified.  Holds since /repo fix 6637729 (before, reduce_classes copied group[0]'s namespace). *)
+Definition ns_compat (merged node : option str) : bool :=
+  ostr_eqb merged node || match merged, node with Some [], None => true | _, _ => false end.
 Definition node_ns_ok (cs : list fclass) (parent_ns : option str) (n : tree) : bool :=
   match find_class cs (class_qname parent_ns n) with
   | None => true
-  | Some c => ostr_eqb (c_ns c) (class_ns parent_ns n)
+  | Some c => ns_compat (c_ns c) (class_ns parent_ns n)
   end.
 Definition doc_ns_ok (cs : list fclass) (t : tree) : bool := tree_all (node_ns_ok cs) (root_ns t) t.
 
@@ -504,14 +507,6 @@ Fixpoint json_eqb (a b : json) {struct a} : bool :=
   end.
 
 Definition json_same (a b : json) : bool := json_eqb (json_drop_nulls a) (json_drop_nulls b).
-
-(* ------------------------------------------------------------------ guards of the guarded theorems *)
-(* all per-node classes of one name agree on a property that reduce_classes copies from group[0] *)
-Definition uniform_by {A} (f : fclass -> A) (eqb : A -> A -> bool) (all : list fclass) : bool :=
-  forallb (fun c => forallb (fun d => negb (str_eqb (c_qname c) (c_qname d)) || eqb (f c) (f d)) all) all.
-
-Definition g_ns_uniform (cv : sconv) (S : list tree) : bool :=
-  uniform_by c_ns ostr_eqb (concat (map (map_tree cv) S)).
 
 (* ------------------------------------------------------------------ inferred types are kept *)
 (* the type (by qualified name) that build_attr_type / build_class gives to each part of a node *)
